@@ -240,3 +240,39 @@ void arena_begin(void) { }
 void arena_end(void) { }
 void *persistent_realloc(void *p, size_t n) { return realloc(p, n); }
 #endif
+
+/* ----------------------------------------------- function-entry preemption */
+int g_preempt_on;
+int64_t g_preempt_mean = 50;
+uint64_t g_hook_calls, g_hook_yields;
+static int64_t g_countdown;
+static int g_lowprio;
+
+#ifdef GMSIM_HOOKED
+void __cyg_profile_func_enter(void *fn, void *site) __attribute__((no_instrument_function));
+void __cyg_profile_func_exit(void *fn, void *site) __attribute__((no_instrument_function));
+
+void __cyg_profile_func_enter(void *fn, void *site)
+{
+	(void)fn; (void)site;
+	if (!g_preempt_on || g_sim.cur < 0) return;
+	g_hook_calls++;
+	if (--g_countdown > 0) return;
+	g_countdown = 1 + (int64_t)rng_below(&g_sim.sched, (uint32_t)(2 * g_preempt_mean));
+	g_hook_yields++;
+	if (g_sim.pct > 0) {
+		/* PCT change point: the running task drops below everybody else */
+		Task *me = sim_cur();
+		if (g_sim.pct_left > 0) { g_sim.pct_left--; me->prio = --g_lowprio; }
+	}
+	sim_yield(EV_HOOK, (int64_t)g_hook_calls, 0);
+}
+void __cyg_profile_func_exit(void *fn, void *site) { (void)fn; (void)site; }
+#endif
+
+void preempt_reset(int pct_d)
+{
+	g_countdown = 1;
+	g_lowprio = 0;
+	g_sim.pct_left = pct_d;
+}
